@@ -48,6 +48,7 @@ unsafe impl GlobalAlloc for Counting {
     }
     unsafe fn dealloc(&self, p: *mut u8, l: Layout) {
         check_watch(p, l.size());
+        capture(p, l.size());
         if ENABLED.load(SeqCst) {
             // saturating: blocks allocated while disabled may be freed while enabled
             let sz = l.size() as u64;
@@ -58,6 +59,7 @@ unsafe impl GlobalAlloc for Counting {
     unsafe fn realloc(&self, p: *mut u8, l: Layout, new: usize) -> *mut u8 {
         // a realloc may move the block and free the old one without our dealloc seeing it
         check_watch(p, l.size());
+        capture(p, l.size());
         let q = System.realloc(p, l, new);
         if ENABLED.load(SeqCst) && !q.is_null() {
             let old = l.size() as u64;
@@ -72,6 +74,52 @@ unsafe impl GlobalAlloc for Counting {
         }
         q
     }
+}
+
+// ---- capture of released blocks (C20): while CAPTURE is on, the first bytes of every block that is
+// released (dealloc, or the old block of a realloc) are copied into a ring, so that the harness can
+// afterwards search what was released for secret bytes that were not wiped first.
+const NCAP: usize = 512;
+const CAPLEN: usize = 96;
+static CAPTURE: AtomicBool = AtomicBool::new(false);
+static CAP_N: AtomicUsize = AtomicUsize::new(0);
+static mut CAP_BUF: [[u8; CAPLEN]; NCAP] = [[0u8; CAPLEN]; NCAP];
+static mut CAP_LEN: [usize; NCAP] = [0usize; NCAP];
+
+unsafe fn capture(p: *mut u8, size: usize) {
+    if !CAPTURE.load(SeqCst) || size == 0 {
+        return;
+    }
+    let i = CAP_N.fetch_add(1, SeqCst);
+    if i >= NCAP {
+        return;
+    }
+    let n = std::cmp::min(size, CAPLEN);
+    std::ptr::copy_nonoverlapping(p as *const u8, std::ptr::addr_of_mut!(CAP_BUF[i]) as *mut u8, n);
+    CAP_LEN[i] = n;
+}
+
+pub fn capture_start() {
+    CAP_N.store(0, SeqCst);
+    CAPTURE.store(true, SeqCst);
+}
+pub fn capture_stop() {
+    CAPTURE.store(false, SeqCst);
+}
+/// number of released blocks (captured since capture_start) that contain `needle`
+pub fn captured_containing(needle: &[u8]) -> usize {
+    let n = std::cmp::min(CAP_N.load(SeqCst), NCAP);
+    let mut hits = 0;
+    for i in 0..n {
+        let (buf, len) = unsafe { (&*std::ptr::addr_of!(CAP_BUF[i]), CAP_LEN[i]) };
+        if len >= needle.len() && buf[..len].windows(needle.len()).any(|w| w == needle) {
+            hits += 1;
+        }
+    }
+    hits
+}
+pub fn captured_overflow() -> bool {
+    CAP_N.load(SeqCst) > NCAP
 }
 
 unsafe fn check_watch(p: *mut u8, size: usize) {
